@@ -40,7 +40,7 @@ def plan(tier, seed, budget):
 
     np_ = len(planters())
     fs = 16 if tier == "quick" else 32
-    per = 40 if tier == "quick" else 600  # hosts per planter
+    per = 60 if tier == "quick" else 600  # hosts per planter
     specs += [{"n": max(1, int(per * budget)), "focus": list(range(i, np_, fs))} for i in range(fs) if i < np_]
     return specs
 
